@@ -229,8 +229,12 @@ def run(case):
                             msg = f"shift_shuffle changed the number of units of {a}: {len(b)} -> {len(af)}"
                         elif which == "splits_shuffle":
                             tb, ta = sum(e - s for s, e, _ in b), sum(e - s for s, e, _ in af)
+                            announced = int(m * tool.SPLIT_FACTOR * n_ref)
                             if abs(tb - ta) > 1e-9 * max(1.0, tb):
                                 msg = f"splits_shuffle changed the total duration of {a}: {tb!r} -> {ta!r}"
+                            elif len(af) != len(b) + announced and all(e - s > 1e-3 for s, e, _ in b):
+                                msg = (f"splits_shuffle announced {announced} splits (reference has {n_ref} units, m={m}) but {a} "
+                                       f"went from {len(b)} to {len(af)} units")
                         if not af:
                             msg = f"{which} left annotator {a} empty"
                         if msg:
